@@ -18,7 +18,8 @@ COQ = dict(imports=["Model.Resolve", "Spec.C16"], in_ty="c16_in", out_ty="c16_ou
            corr="corr_C16", decide="check_C16", model="run")
 THEOREMS = ["C16_decider_sound", "C16_regex_char", "C16_full_id", "C16_prefix_partial", "C16_prefix_complete",
             "C16_prefix_refuted", "C16_symbolic", "C16_relative", "C16_never_outside_branch",
-            "C16_model_holds_full_ids", "C16_reference_meaning"]
+            "C16_model_holds_full_ids", "C16_reference_meaning", "C16_downgrade_label_relative",
+            "C16_downgrade_label_refuted"]
 TRUSTED = [
     "order oracle: the iteration order of the has_branch_labels set and the last-yielded descendant used by "
     "RevisionMap._add_branches are observed from the real run (same objects, same process) and handed to the model, "
@@ -197,20 +198,22 @@ def rel_queries(revs):
     return rel + [x + "@" + r for x in names for r in rel[:4]]
 
 
-DGLABEL = re.compile(r"^[^@]+@-[0-9]+$")
+DGABS = re.compile(r"^[^@+-]+@[^@+-]+$")
 
 
-def dglabel(q):
-    """the second recorded class: a downgrade target `name@-N` (relative to the current revisions of a branch)"""
-    return bool(DGLABEL.match(q))
+def dgabs(q):
+    """the recorded class C16-downgrade-label-unchecked: an absolute target `label@name` (name not head/heads/base);
+    as a downgrade target its label part is not checked against the revision"""
+    return bool(DGABS.match(q)) and q.split("@")[1] not in ("head", "heads", "base") \
+        and q.split("@")[0] not in ("head", "heads", "base")
 
 
 def batches(revs, cur, qs):
     for fa in (False, True):
         for fd in (False, True):
-            part = [q for q in qs if affected(revs, q) == fa and dglabel(q) == fd]
+            part = [q for q in qs if affected(revs, q) == fa and dgabs(q) == fd]
             for k in range(0, len(part), BATCH):
-                yield {"revs": revs, "cur": cur, "queries": part[k:k + BATCH], "affected": fa, "dglabel": fd}
+                yield {"revs": revs, "cur": cur, "queries": part[k:k + BATCH], "affected": fa, "dgabs": fd}
 
 
 def cases_for(revs, rnd):
@@ -391,7 +394,7 @@ def run_case(h):
         cf.lst("(%s, %s)" % (S(x), cf.lst(S(l) for l in ls)) for x, ls in labels),
         cf.lst("(mkObs %s)" % " ".join(_coq_outcome(x) for x in o) for o in out))
     nlab = sum(len(r["labels"]) for r in revs)
-    shape = "n%d-l%d-%s%s" % (len(revs), nlab, "cur" if cur else "abs", ("-affected" if h.get("affected") else "") + ("-dglabel" if h.get("dglabel") else ""))
+    shape = "n%d-l%d-%s%s" % (len(revs), nlab, "cur" if cur else "abs", ("-affected" if h.get("affected") else "") + ("-dgabs" if h.get("dgabs") else ""))
     return dict(cin=cin, cout=cout, out={"oracle": oracle, "labels": labels, "obs": out}, nontrivial=nontrivial, shape=shape)
 
 
@@ -411,13 +414,18 @@ def _coq_outcome(x):
 
 # ----------------------------------------------------------------------------- known finding
 
+def _same(a, b):
+    return (a.get("err"), a.get("ok")) == (b.get("err"), b.get("ok"))
+
+
 def classify(human, out):
     """A decider failure belongs to a recorded finding only if the whole batch lies in the recorded input class and
-    (for the AssertionError finding) the recorded deviation kind is what the implementation showed."""
+    (for the downgrade-label finding) the recorded deviation kind is what the implementation showed: the downgrade
+    target parser answers differently from get_revision on the same `label@name`."""
     qs = human["queries"]
-    if human.get("dglabel") and all(dglabel(q) for q in qs) and out and \
-            any(o[4].get("err") == "XAssertion" for o in out["obs"]):
-        return "C16-downgrade-label-relative-assert"
     if human.get("affected") and all(affected(human["revs"], q) for q in qs):
         return "C16-short-or-label-prefix"
+    if human.get("dgabs") and all(dgabs(q) for q in qs) and out and \
+            any(not _same(o[4], o[1]) for o in out["obs"]):
+        return "C16-downgrade-label-unchecked"
     return None
